@@ -428,6 +428,16 @@ def _propagate_generated_copies(fn):
             out.append(s)
         return out
     fn.body = strip(fn.body)
+    # sources that are themselves generated copies are resolved first (`r__h = n__h.attr`, `n__h = pkt.nack` -> `pkt.nack.attr`)
+    import copy
+    for _ in range(len(m) + 1):
+        changed = False
+        for k in list(m):
+            if any(isinstance(y, ast.Name) and y.id in m and y.id != k for y in ast.walk(m[k])):
+                m[k] = _RenameLoads({a: b for a, b in m.items() if a != k}).visit(copy.deepcopy(m[k]))
+                changed = True
+        if not changed:
+            break
     _RenameLoads(m).visit(fn)
 
 
